@@ -76,6 +76,10 @@ pub struct GenCfg {
     pub dup_pos_pct: u64,
     /// probability (percent) that a token is an exact copy of the previous one
     pub exact_dup_pct: u64,
+    /// probability (percent) that a token is a copy of the previous one with exactly one field
+    /// changed (name id - preferably to another slot holding the same string -, source id,
+    /// original line or column, or named <-> unnamed)
+    pub near_dup_pct: u64,
     /// all strings in sources / names distinct (needed for builder-by-string construction)
     pub unique_strings: bool,
     pub allow_root: bool,
@@ -98,6 +102,7 @@ impl Default for GenCfg {
             big_lines: false,
             dup_pos_pct: 10,
             exact_dup_pct: 5,
+            near_dup_pct: 6,
             unique_strings: false,
             allow_root: true,
             allow_optional: true,
@@ -160,6 +165,29 @@ pub fn gen_map(rng: &mut Rng, cfg: &GenCfg) -> MapModel {
         if let Some(prev) = tokens.last().copied() {
             if rng.chance(cfg.exact_dup_pct, 100) {
                 tokens.push(prev);
+                continue;
+            }
+            if let (true, Some(ps)) = (rng.chance(cfg.near_dup_pct, 100), prev.src) {
+                let mut t = prev;
+                let mut s = ps;
+                let same_string = |pool: &[String], cur: u32, rng: &mut Rng| -> Option<u32> {
+                    let twins: Vec<u32> = (0..pool.len() as u32).filter(|&i| i != cur && pool[i as usize] == pool[cur as usize]).collect();
+                    if twins.is_empty() { None } else { Some(twins[rng.usize_below(twins.len())]) }
+                };
+                match rng.below(5) {
+                    0 if n_names > 0 => {
+                        s.name = match s.name {
+                            Some(cur) => same_string(&names, cur, rng).or_else(|| if rng.bool() { None } else { Some(rng.below(n_names as u64) as u32) }),
+                            None => Some(rng.below(n_names as u64) as u32),
+                        }
+                    }
+                    1 => s.id = same_string(&sources, s.id, rng).unwrap_or_else(|| rng.below(n_sources as u64) as u32),
+                    2 => s.line = s.line.wrapping_add(1),
+                    3 => s.col = s.col.wrapping_add(1),
+                    _ => s.name = None,
+                }
+                t.src = Some(s);
+                tokens.push(t);
                 continue;
             }
         }
